@@ -13,6 +13,15 @@
            c15_same_version                          (is_pep440, same key, same normal form, ...)
            pt_read_back                              (the {pep440_version} text is accepted by the derived pattern)
            vt_parse_eq, c15_roundtrip                (text -> record -> both texts)
+           c15_semver_update                         (all of it in one statement)
+
+   The same for the default CalVer pattern  P2 = vYYYY0M.BUILD[-TAG]  (P2' = YYYY0M.BLD[PYTAGNUM]), for all years,
+   months, build strings (leading zeros allowed) and tags: cvt_format_gen, cpt_format_gen, update_writes_calver,
+   parse_cvt, parse_cpt, c15_calver, cpt_literal_iff, c15_calver_update.
+
+   Three places where the two placeholders do NOT agree, or the written text is not read back, are proved as well:
+   final_with_num_diverges (tag final with a non-zero NUM), calver_hidden_num_diverges (P2 has no NUM part but
+   PYTAGNUM prints the NUM field), bld_zero_not_read_back (a build string of zeros is written as 0, which BLD rejects).
    Nothing here is computed on samples: all numbers are universally quantified. *)
 From Coq Require Import List Bool NArith ZArith Arith Lia.
 From BV Require Import Lib.PyStr Lib.Decimal Lib.Types Lib.Regex Lib.RegexParse Lib.Calendar Model.Lexid Gen.Tables
@@ -167,6 +176,99 @@ Proof. cbn. rewrite app_nil_r. reflexivity. Qed.
 Lemma ltxt_not_zero l : is_zero_val s_TAG (ltxt l) = false.
 Proof. destruct l; reflexivity. Qed.
 
+(* ================================================================== the default CalVer pattern
+       P2  =  vYYYY0M.BUILD[-TAG]       (v202401.1001, v202401.1001-beta; the tag has NO number)
+       P2' =  YYYY0M.BLD[PYTAGNUM]      (202401.1001,  202401.1001b0)
+   BUILD is a digit string that may have leading zeros; BLD prints it as a number. *)
+Definition P2 : list N := CV.P.
+Definition P2' : list N := [89;89;89;89;48;77;46;66;76;68;91;80;89;84;65;71;78;85;77;93].
+
+Theorem convert_P2 : convert_to_pep440 P2 = P2'.
+Proof. vm_compute. reflexivity. Qed.
+Theorem norm2_version : normalize_pattern P2 s_version_ph = P2.
+Proof. vm_compute. reflexivity. Qed.
+Theorem norm2_pep440 : normalize_pattern P2 s_pep440_ph = P2'.
+Proof. vm_compute. reflexivity. Qed.
+
+(* {version}: the tag is shown without its number *)
+Definition cvt (y m : N) (bid : list N) (t : lstate) : list N :=
+  CV.cv y m bid ++ match t with Some (l, _) => [45] ++ ltxt l | None => [] end.
+(* {pep440_version}: PYTAGNUM shows the short tag AND the NUM field of the record *)
+Definition cpt (y m : N) (bid : list N) (t : lstate) : list N :=
+  dec y ++ pad 2 m ++ [46] ++ dec (undec bid) ++ match t with Some (l, n) => stxt l ++ dec n | None => [] end.
+
+(* ------------------------------------------------------------------ format under P2 *)
+Lemma r3_seg2_cv : sreplace [92; 93] [93] (sreplace [92; 91] [91] (sreplace [36] [] (sreplace [94] [] CV.seg2))) = CV.seg2.
+Proof. vm_compute. reflexivity. Qed.
+Lemma subst_group_cv l : sreplace P_TAG (ltxt l) CV.seg2 = [45] ++ ltxt l.
+Proof. destruct l; reflexivity. Qed.
+
+
+(* ------------------------------------------------------------------ format under P2' *)
+Definition segC : list N := [89;89;89;89;48;77;46;66;76;68].     (* YYYY0M.BLD *)
+Lemma segtree_P2' : parse_segtree P2' = Some [SStr segC; STree [SStr ST.seg2]].
+Proof. vm_compute. reflexivity. Qed.
+
+Lemma pvg_used2 : forall F b c e g h i j y m ma mi pa bid tag pytag gh hh num i0 i1,
+  match ST.pvg F (mkv (Some y) b c (Some m) e g h i j ma mi pa bid tag pytag gh hh num i0 i1) PATTERN_PART_FIELDS with
+  | Some l =>
+      filter (fun '(p, _) => str_in p segC) (sort_by_len_desc (fun x => length (fst x)) l)
+      = [(P_YYYY, F FmtStr (FInt y)); (P_BLD, F FmtInt (FStr bid)); (P_YY, F FmtLast2 (FInt y));
+         (P_0M, F (FmtPad 2) (FInt m))]
+      /\ filter (fun '(p, _) => str_in p ST.seg2) (sort_by_len_desc (fun x => length (fst x)) l)
+      = [(s_PYTAG, F FmtStr (FStr pytag)); (s_TAG, F FmtStr (FStr tag)); (s_NUM, F FmtStr (FInt num))]
+  | None => False
+  end.
+Proof.
+  intros F b c e g h i j. intros.
+  destruct b, c, e, g, h, i, j; vm_compute; split; reflexivity.
+Qed.
+
+Lemma fpv_used2 : forall v y m, v_year_y v = Some y -> v_month v = Some m ->
+  exists pv, format_part_values v = Some pv
+  /\ filter (fun '(p, _) => str_in p segC) pv
+     = [(P_YYYY, zdec y); (P_BLD, dec (undec (v_bid v))); (P_YY, CV.yy_text y); (P_0M, pad 2 (Z.to_N m))]
+  /\ filter (fun '(p, _) => str_in p ST.seg2) pv
+     = [(s_PYTAG, v_pytag v); (s_TAG, v_tag v); (s_NUM, zdec (v_num v))].
+Proof.
+  intros v y m Hy Hm.
+  destruct v as [a b c d e g h i j ma mi pa bid tag pytag gh hh num i0 i1].
+  cbn [v_year_y v_month v_bid v_tag v_pytag v_num] in *. subst a d.
+  pose proof (pvg_used2 apply_fmt b c e g h i j y m ma mi pa bid tag pytag gh hh num i0 i1) as H.
+  destruct (ST.pvg apply_fmt _ PATTERN_PART_FIELDS) as [l|] eqn:H1; [|contradiction].
+  destruct H as [H2 H3].
+  exists (sort_by_len_desc (fun x => length (fst x)) l). split; [|split].
+  - unfold format_part_values. rewrite ST.pvg_eq, H1. reflexivity.
+  - rewrite H2. reflexivity.
+  - rewrite H3. reflexivity.
+Qed.
+
+Lemma r3_segC : sreplace [92; 93] [93] (sreplace [92; 91] [91] (sreplace [36] [] (sreplace [94] [] segC))) = segC.
+Proof. vm_compute. reflexivity. Qed.
+
+Lemma subst_C y m bl yy : all_digits bl = true ->
+  sreplace P_0M (pad 2 m) (sreplace P_YY yy (sreplace P_BLD bl (sreplace P_YYYY (dec y) segC)))
+  = dec y ++ pad 2 m ++ [46] ++ bl.
+Proof.
+  intros Hb.
+  assert (E1 : sreplace P_YYYY (dec y) segC = dec y ++ [48;77;46;66;76;68]) by reflexivity.
+  rewrite E1. clear E1.
+  assert (E2 : sreplace P_BLD bl (dec y ++ [48;77;46;66;76;68]) = dec y ++ [48;77;46] ++ bl).
+  { unfold sreplace, P_BLD. rewrite (CV.replace_go_digits 66 [76;68] bl (dec y)) by (try apply dec_all_digits; lia).
+    cbn [app replace_go prefixb N.eqb Pos.eqb andb length Nat.sub]. rewrite app_nil_r. reflexivity. }
+  rewrite E2. clear E2.
+  assert (E3 : sreplace P_YY yy (dec y ++ [48;77;46] ++ bl) = dec y ++ [48;77;46] ++ bl).
+  { unfold sreplace, P_YY. rewrite (CV.replace_go_digits 89 [89] yy (dec y)) by (try apply dec_all_digits; lia).
+    cbn [app replace_go prefixb N.eqb Pos.eqb andb].
+    rewrite (CV.replace_go_digits_end 89 [89] yy bl Hb) by lia. reflexivity. }
+  rewrite E3. clear E3.
+  unfold sreplace, P_0M.
+  rewrite (CV.replace_go_0M (pad 2 m) (dec y)); [|apply dec_all_digits|cbn [app]; intros Q; discriminate Q].
+  cbn [app replace_go prefixb N.eqb Pos.eqb andb length Nat.sub].
+  rewrite (CV.replace_go_0M_end (pad 2 m) bl Hb). reflexivity.
+Qed.
+
+
 Local Opaque format_part_values parse_segtree.
 
 (* the optional group is left out exactly when TAG shows final AND NUM shows 0 *)
@@ -225,6 +327,37 @@ Proof.
   - exact (ST.svt_format_final_with_num v n Hp Hn Hne).
 Qed.
 
+(* ------------------------------------------------------------------ format under P2 and P2' *)
+Theorem cvt_format_gen : forall v y m t,
+  v_year_y v = Some y -> v_month v = Some m -> v_tag v = tagtext t -> all_digits (v_bid v) = true ->
+  format_version v P2 = Some (cvt (Z.to_N y) (Z.to_N m) (v_bid v) t).
+Proof.
+  intros v y m t Hy Hm Ht Hb. destruct (CV.fpv_used v y m Hy Hm) as (pv & H1 & H2 & H3).
+  unfold format_version, P2. rewrite H1, CV.segtree_P. cbn [map concat].
+  rewrite ST.fmt_opt_one by (rewrite H3; intros Q; discriminate Q).
+  cbn [fmt_seg]. rewrite !ST.format_segment_res, H2, H3, CV.r3_seg1, r3_seg2_cv. cbn [fold_left]. unfold zdec.
+  rewrite CV.subst_calver by exact Hb. rewrite Ht, app_nil_r. unfold cvt.
+  destruct t as [[l n]|]; cbn [tagtext forallb].
+  - change (is_zero_val P_TAG (ltxt l)) with (is_zero_val s_TAG (ltxt l)). rewrite ltxt_not_zero. cbn [andb].
+    rewrite subst_group_cv. reflexivity.
+  - reflexivity.
+Qed.
+
+Theorem cpt_format_gen : forall v y m t,
+  v_year_y v = Some y -> v_month v = Some m -> state_of v t ->
+  format_version v P2' = Some (cpt (Z.to_N y) (Z.to_N m) (v_bid v) t).
+Proof.
+  intros v y m t Hy Hm (Ht & Hp & Hn). destruct (fpv_used2 v y m Hy Hm) as (pv & H1 & H2 & H3).
+  unfold format_version. rewrite H1, segtree_P2'. cbn [map concat].
+  rewrite ST.fmt_opt_one by (rewrite H3; intros Q; discriminate Q).
+  cbn [fmt_seg]. rewrite !ST.format_segment_res, H2, H3, r3_segC, ST.r3_seg2. cbn [fold_left]. unfold zdec.
+  rewrite subst_C by apply dec_all_digits. rewrite Ht, Hp, Hn, N2Z.id, app_nil_r. unfold cpt.
+  destruct t as [[l n]|]; cbn [tagtext pytext lnum forallb].
+  - unfold stxt. rewrite ST.ptext_not_zero. cbn [andb]. rewrite ST.subst_group, <- !app_assoc. reflexivity.
+  - cbn. rewrite <- !app_assoc. reflexivity.
+Qed.
+
+
 (* ------------------------------------------------------------------ what update writes *)
 Lemma compile_PP : compile_pattern_re PP = Some ST.R_svt.
 Proof. vm_compute. reflexivity. Qed.
@@ -239,6 +372,11 @@ Definition R_PV : re :=
 Lemma compile_PV : compile_pattern_re PV = Some R_PV.
 Proof. vm_compute. reflexivity. Qed.
 
+Lemma compile_P2 : compile_pattern_re P2 = Some CV.R_calver.
+Proof. vm_compute. reflexivity. Qed.
+Lemma compile_P2' : exists r, compile_pattern_re P2' = Some r.
+Proof. eexists. vm_compute. reflexivity. Qed.
+
 Local Opaque format_version compile_pattern_re normalize_pattern.
 
 (* rewrite.v2_cpat is the model of config._compile_v2_file_patterns + the replacement text of
@@ -252,6 +390,17 @@ Theorem update_writes : forall v t, state_of v t ->
 Proof.
   intros v t H. unfold v2_cpat. cbv zeta.
   rewrite norm_version, norm_pep440, compile_PV, compile_PP, (vt_format_gen v t H), (pt_format_gen v t H).
+  split; reflexivity.
+Qed.
+
+Theorem update_writes_calver : forall v y m t,
+  v_year_y v = Some y -> v_month v = Some m -> state_of v t -> all_digits (v_bid v) = true ->
+  option_map cp_repl (v2_cpat P2 s_version_ph v) = Some (cvt (Z.to_N y) (Z.to_N m) (v_bid v) t)
+  /\ option_map cp_repl (v2_cpat P2 s_pep440_ph v) = Some (cpt (Z.to_N y) (Z.to_N m) (v_bid v) t).
+Proof.
+  intros v y m t Hy Hm H Hb. unfold v2_cpat. cbv zeta. destruct compile_P2' as [r Hr].
+  rewrite norm2_version, norm2_pep440, compile_P2, Hr, (cvt_format_gen v y m t Hy Hm (proj1 H) Hb),
+    (cpt_format_gen v y m t Hy Hm H).
   split; reflexivity.
 Qed.
 
@@ -566,143 +715,215 @@ Proof.
   repeat split; try reflexivity; try assumption. symmetry. exact T.
 Qed.
 
-(* ================================================================== the default CalVer pattern
-       P2  =  vYYYY0M.BUILD[-TAG]       (v202401.1001, v202401.1001-beta; the tag has NO number)
-       P2' =  YYYY0M.BLD[PYTAGNUM]      (202401.1001,  202401.1001b0)
-   BUILD is a digit string that may have leading zeros; BLD prints it as a number. *)
-Definition P2 : list N := CV.P.
-Definition P2' : list N := [89;89;89;89;48;77;46;66;76;68;91;80;89;84;65;71;78;85;77;93].
+(* ================================================================== PEP 440 reading of the CalVer texts *)
+Definition sb (l : ltag) : TaggedFacts.btag := ST.btag (short l).
+(* {version} does not show the number *)
+Definition hide (t : lstate) : lstate := match t with Some (l, _) => Some (l, 0) | None => None end.
 
-Theorem convert_P2 : convert_to_pep440 P2 = P2'.
-Proof. vm_compute. reflexivity. Qed.
-Theorem norm2_version : normalize_pattern P2 s_version_ph = P2.
-Proof. vm_compute. reflexivity. Qed.
-Theorem norm2_pep440 : normalize_pattern P2 s_pep440_ph = P2'.
-Proof. vm_compute. reflexivity. Qed.
+Lemma cvt_tagged y m bid l n : cvt y m bid (Some (l, n)) = tagged true [dec y ++ pad 2 m; bid] [45] (lb l) [].
+Proof. unfold cvt. rewrite CV.cv_dj. unfold tagged. rewrite app_nil_r. destruct l; reflexivity. Qed.
+Lemma cpt_tagged y m bid l n :
+  cpt y m bid (Some (l, n)) = tagged false [dec y ++ pad 2 m; dec (undec bid)] [] (sb l) (dec n).
+Proof. unfold cpt, tagged. cbn [join app]. rewrite <- !app_assoc. destruct l; reflexivity. Qed.
+Lemma cpt_final y m bid : cpt y m bid None = dj [dec y ++ pad 2 m; dec (undec bid)].
+Proof. unfold cpt, dj. cbn [join app]. rewrite app_nil_r, <- !app_assoc. reflexivity. Qed.
 
-(* {version}: the tag is shown without its number *)
-Definition cvt (y m : N) (bid : list N) (t : lstate) : list N :=
-  CV.cv y m bid ++ match t with Some (l, _) => [45] ++ ltxt l | None => [] end.
-(* {pep440_version}: PYTAGNUM shows the short tag AND the NUM field of the record *)
-Definition cpt (y m : N) (bid : list N) (t : lstate) : list N :=
-  dec y ++ pad 2 m ++ [46] ++ dec (undec bid) ++ match t with Some (l, n) => stxt l ++ dec n | None => [] end.
-
-(* ------------------------------------------------------------------ format under P2 *)
-Lemma r3_seg2_cv : sreplace [92; 93] [93] (sreplace [92; 91] [91] (sreplace [36] [] (sreplace [94] [] CV.seg2))) = CV.seg2.
-Proof. vm_compute. reflexivity. Qed.
-Lemma subst_group_cv l : sreplace P_TAG (ltxt l) CV.seg2 = [45] ++ ltxt l.
-Proof. destruct l; reflexivity. Qed.
-
-Local Transparent format_version.
-
-Theorem cvt_format_gen : forall v y m t,
-  v_year_y v = Some y -> v_month v = Some m -> v_tag v = tagtext t -> all_digits (v_bid v) = true ->
-  format_version v P2 = Some (cvt (Z.to_N y) (Z.to_N m) (v_bid v) t).
-Proof.
-  intros v y m t Hy Hm Ht Hb. destruct (CV.fpv_used v y m Hy Hm) as (pv & H1 & H2 & H3).
-  unfold format_version, P2. rewrite H1, CV.segtree_P. cbn [map concat].
-  rewrite ST.fmt_opt_one by (rewrite H3; intros Q; discriminate Q).
-  cbn [fmt_seg]. rewrite !ST.format_segment_res, H2, H3, CV.r3_seg1, r3_seg2_cv. cbn [fold_left]. unfold zdec.
-  rewrite CV.subst_calver by exact Hb. rewrite Ht, app_nil_r. unfold cvt.
-  destruct t as [[l n]|]; cbn [tagtext forallb].
-  - change (is_zero_val P_TAG (ltxt l)) with (is_zero_val s_TAG (ltxt l)). rewrite ltxt_not_zero. cbn [andb].
-    rewrite subst_group_cv. reflexivity.
-  - reflexivity.
-Qed.
-
-(* ------------------------------------------------------------------ format under P2' *)
-Definition segC : list N := [89;89;89;89;48;77;46;66;76;68].     (* YYYY0M.BLD *)
-Lemma segtree_P2' : parse_segtree P2' = Some [SStr segC; STree [SStr ST.seg2]].
-Proof. vm_compute. reflexivity. Qed.
-
-Lemma pvg_used2 : forall F b c e g h i j y m ma mi pa bid tag pytag gh hh num i0 i1,
-  match ST.pvg F (mkv (Some y) b c (Some m) e g h i j ma mi pa bid tag pytag gh hh num i0 i1) PATTERN_PART_FIELDS with
-  | Some l =>
-      filter (fun '(p, _) => str_in p segC) (sort_by_len_desc (fun x => length (fst x)) l)
-      = [(P_YYYY, F FmtStr (FInt y)); (P_BLD, F FmtInt (FStr bid)); (P_YY, F FmtLast2 (FInt y));
-         (P_0M, F (FmtPad 2) (FInt m))]
-      /\ filter (fun '(p, _) => str_in p ST.seg2) (sort_by_len_desc (fun x => length (fst x)) l)
-      = [(s_PYTAG, F FmtStr (FStr pytag)); (s_TAG, F FmtStr (FStr tag)); (s_NUM, F FmtStr (FInt num))]
-  | None => False
+Definition pv2 (y m : N) (bid : list N) (t : lstate) : pver :=
+  match t with
+  | None => mkpver 0 [y * 100 + m; undec bid] None None None None
+  | Some (l, n) => tag_pver [y * 100 + m; undec bid] (lb l) n
   end.
+
+Lemma ne2l (a b : list N) : [a; b] <> [].
+Proof. intros Q; discriminate Q. Qed.
+
+(* the missing number is read as 0 *)
+Theorem parse_cvt : forall y m bid t, m <= 12 -> all_digits bid = true -> bid <> [] ->
+  parse_pep440 (cvt y m bid t) = Some (pv2 y m bid (hide t)).
 Proof.
-  intros F b c e g h i j. intros.
-  destruct b, c, e, g, h, i, j; vm_compute; split; reflexivity.
+  intros y m bid [[l n]|] Hm Hd Hne.
+  - rewrite cvt_tagged.
+    rewrite (parse_tagged_sep true [dec y ++ pad 2 m; bid] [45] (lb l) [] (ne2l _ _) (CV.good_cv y m bid (conj Hd Hne))
+               sep_dash eq_refl).
+    cbn [map]. rewrite CV.undec_ym by exact Hm. reflexivity.
+  - unfold cvt. rewrite app_nil_r. exact (CV.parse_cv y m bid Hm Hd Hne).
+Qed.
+Theorem parse_cpt : forall y m bid t, m <= 12 ->
+  parse_pep440 (cpt y m bid t) = Some (pv2 y m bid t).
+Proof.
+  intros y m bid [[l n]|] Hm.
+  - rewrite cpt_tagged.
+    rewrite (parse_tagged_sep false [dec y ++ pad 2 m; dec (undec bid)] [] (sb l) (dec n) (ne2l _ _)
+               (CV.good_cv y m _ (ST.dstr_dec (undec bid))) ST.sep_nil (dec_all_digits n)).
+    cbn [map]. rewrite CV.undec_ym by exact Hm. rewrite !undec_dec. destruct l; reflexivity.
+  - rewrite cpt_final, (parse_dj _ (CV.good_cv y m _ (ST.dstr_dec (undec bid))) (ne2l _ _)).
+    cbn [map]. rewrite CV.undec_ym by exact Hm. rewrite undec_dec. reflexivity.
 Qed.
 
-Lemma fpv_used2 : forall v y m, v_year_y v = Some y -> v_month v = Some m ->
-  exists pv, format_part_values v = Some pv
-  /\ filter (fun '(p, _) => str_in p segC) pv
-     = [(P_YYYY, zdec y); (P_BLD, dec (undec (v_bid v))); (P_YY, CV.yy_text y); (P_0M, pad 2 (Z.to_N m))]
-  /\ filter (fun '(p, _) => str_in p ST.seg2) pv
-     = [(s_PYTAG, v_pytag v); (s_TAG, v_tag v); (s_NUM, zdec (v_num v))].
+(* the C15 statement for the CalVer pattern: the record's NUM is 0 (it is, whenever the record was read from
+   a version of this pattern: there is no NUM part) *)
+Theorem c15_calver : forall y m bid t, m <= 12 -> all_digits bid = true -> bid <> [] -> lnum t = 0 ->
+  is_pep440 (cvt y m bid t) = true
+  /\ is_pep440 (cpt y m bid t) = true
+  /\ parse_pep440 (cpt y m bid t) = parse_pep440 (cvt y m bid t)
+  /\ version_key (cpt y m bid t) = version_key (cvt y m bid t)
+  /\ to_pep440 (cvt y m bid t) = to_pep440 (cpt y m bid t)
+  /\ ver_lt (cpt y m bid t) (cvt y m bid t) = false /\ ver_lt (cvt y m bid t) (cpt y m bid t) = false.
 Proof.
-  intros v y m Hy Hm.
-  destruct v as [a b c d e g h i j ma mi pa bid tag pytag gh hh num i0 i1].
-  cbn [v_year_y v_month v_bid v_tag v_pytag v_num] in *. subst a d.
-  pose proof (pvg_used2 apply_fmt b c e g h i j y m ma mi pa bid tag pytag gh hh num i0 i1) as H.
-  destruct (ST.pvg apply_fmt _ PATTERN_PART_FIELDS) as [l|] eqn:H1; [|contradiction].
-  destruct H as [H2 H3].
-  exists (sort_by_len_desc (fun x => length (fst x)) l). split; [|split].
-  - Local Transparent format_part_values. unfold format_part_values. Local Opaque format_part_values.
-    rewrite ST.pvg_eq, H1. reflexivity.
-  - rewrite H2. reflexivity.
-  - rewrite H3. reflexivity.
+  intros y m bid t Hm Hd Hne Hn.
+  assert (Eh : hide t = t) by (destruct t as [[l n]|]; [cbn [lnum] in Hn; subst n|]; reflexivity).
+  pose proof (parse_cvt y m bid t Hm Hd Hne) as E1. rewrite Eh in E1.
+  pose proof (parse_cpt y m bid t Hm) as E2.
+  assert (K : version_key (cpt y m bid t) = version_key (cvt y m bid t)).
+  { unfold version_key. rewrite E1, E2. reflexivity. }
+  split; [unfold is_pep440; rewrite E1; reflexivity|].
+  split; [unfold is_pep440; rewrite E2; reflexivity|].
+  split; [rewrite E1, E2; reflexivity|].
+  split; [exact K|].
+  split; [unfold to_pep440; rewrite E1, E2; reflexivity|].
+  unfold ver_lt, key_lt. rewrite K, cmp_key_refl. split; reflexivity.
 Qed.
 
-Lemma r3_segC : sreplace [92; 93] [93] (sreplace [92; 91] [91] (sreplace [36] [] (sreplace [94] [] segC))) = segC.
-Proof. vm_compute. reflexivity. Qed.
-
-Lemma subst_C y m bl yy : all_digits bl = true ->
-  sreplace P_0M (pad 2 m) (sreplace P_YY yy (sreplace P_BLD bl (sreplace P_YYYY (dec y) segC)))
-  = dec y ++ pad 2 m ++ [46] ++ bl.
+(* A record of this pattern whose NUM is not 0: {version} cannot show it, {pep440_version} does;
+   the two texts are then different versions (b0 against b5) *)
+Theorem calver_hidden_num_diverges : forall y m bid l n, m <= 12 -> all_digits bid = true -> bid <> [] -> n <> 0 ->
+  parse_pep440 (cvt y m bid (Some (l, n))) = Some (tag_pver [y * 100 + m; undec bid] (lb l) 0)
+  /\ parse_pep440 (cpt y m bid (Some (l, n))) = Some (tag_pver [y * 100 + m; undec bid] (lb l) n)
+  /\ version_key (cpt y m bid (Some (l, n))) <> version_key (cvt y m bid (Some (l, n))).
 Proof.
-  intros Hb.
-  assert (E1 : sreplace P_YYYY (dec y) segC = dec y ++ [48;77;46;66;76;68]) by reflexivity.
-  rewrite E1. clear E1.
-  assert (E2 : sreplace P_BLD bl (dec y ++ [48;77;46;66;76;68]) = dec y ++ [48;77;46] ++ bl).
-  { unfold sreplace, P_BLD. rewrite (CV.replace_go_digits 66 [76;68] bl (dec y)) by (try apply dec_all_digits; lia).
-    cbn [app replace_go prefixb N.eqb Pos.eqb andb length Nat.sub]. rewrite app_nil_r. reflexivity. }
-  rewrite E2. clear E2.
-  assert (E3 : sreplace P_YY yy (dec y ++ [48;77;46] ++ bl) = dec y ++ [48;77;46] ++ bl).
-  { unfold sreplace, P_YY. rewrite (CV.replace_go_digits 89 [89] yy (dec y)) by (try apply dec_all_digits; lia).
-    cbn [app replace_go prefixb N.eqb Pos.eqb andb].
-    rewrite (CV.replace_go_digits_end 89 [89] yy bl Hb) by lia. reflexivity. }
-  rewrite E3. clear E3.
-  unfold sreplace, P_0M.
-  rewrite (CV.replace_go_0M (pad 2 m) (dec y)); [|apply dec_all_digits|cbn [app]; intros Q; discriminate Q].
-  cbn [app replace_go prefixb N.eqb Pos.eqb andb length Nat.sub].
-  rewrite (CV.replace_go_0M_end (pad 2 m) bl Hb). reflexivity.
+  intros y m bid l n Hm Hd Hne Hn.
+  pose proof (parse_cvt y m bid (Some (l, n)) Hm Hd Hne) as E1.
+  pose proof (parse_cpt y m bid (Some (l, n)) Hm) as E2.
+  cbn [hide pv2] in E1, E2.
+  split; [exact E1|]. split; [exact E2|].
+  unfold version_key. rewrite E1, E2. intros Q. apply Hn.
+  destruct l; cbn [tag_pver lb] in Q; rewrite !cmpkey_eq in Q; cbn [tag_of] in Q; injection Q; intros; assumption.
 Qed.
 
-Theorem cpt_format_gen : forall v y m t,
-  v_year_y v = Some y -> v_month v = Some m -> state_of v t ->
-  format_version v P2' = Some (cpt (Z.to_N y) (Z.to_N m) (v_bid v) t).
+(* Version.__str__ *)
+Definition nf2 (y m : N) (bid : list N) (t : lstate) : list N := dotted [y * 100 + m; undec bid] ++ nsuffix t.
+Lemma pver_str_pv2 y m bid t : pver_str (pv2 y m bid t) = nf2 y m bid t.
 Proof.
-  intros v y m t Hy Hm (Ht & Hp & Hn). destruct (fpv_used2 v y m Hy Hm) as (pv & H1 & H2 & H3).
-  unfold format_version. rewrite H1, segtree_P2'. cbn [map concat].
-  rewrite ST.fmt_opt_one by (rewrite H3; intros Q; discriminate Q).
-  cbn [fmt_seg]. rewrite !ST.format_segment_res, H2, H3, r3_segC, ST.r3_seg2. cbn [fold_left]. unfold zdec.
-  rewrite subst_C by apply dec_all_digits. rewrite Ht, Hp, Hn, N2Z.id, app_nil_r. unfold cpt.
-  destruct t as [[l n]|]; cbn [tagtext pytext lnum forallb].
-  - unfold stxt. rewrite ST.ptext_not_zero. cbn [andb]. rewrite ST.subst_group, <- !app_assoc. reflexivity.
-  - cbn. rewrite <- !app_assoc. reflexivity.
+  unfold pver_str, nf2, dotted.
+  destruct t as [[[] n]|]; cbn [pv2 tag_pver lb pv_epoch pv_release pv_pre pv_post pv_dev pv_local N.eqb nsuffix stxt short
+                                  ST.ptext]; cbn [app]; rewrite ?app_nil_r; reflexivity.
+Qed.
+Theorem to_pep440_cpt : forall y m bid t, m <= 12 -> to_pep440 (cpt y m bid t) = nf2 y m bid t.
+Proof. intros y m bid t Hm. unfold to_pep440. rewrite (parse_cpt y m bid t Hm). apply pver_str_pv2. Qed.
+Theorem to_pep440_cvt : forall y m bid t, m <= 12 -> all_digits bid = true -> bid <> [] ->
+  to_pep440 (cvt y m bid t) = nf2 y m bid (hide t).
+Proof. intros y m bid t Hm Hd Hne. unfold to_pep440. rewrite (parse_cvt y m bid t Hm Hd Hne). apply pver_str_pv2. Qed.
+
+(* year and two-digit month glued together are the decimal text of year * 100 + month *)
+Lemma dec_ym y m : y <> 0 -> m <= 12 -> dec (y * 100 + m) = dec y ++ pad 2 m.
+Proof.
+  intros Hy Hm. rewrite <- (CV.undec_ym y m Hm). apply dec_canonical.
+  - exact (proj1 (CV.dstr_ym y m)).
+  - exact (proj2 (CV.dstr_ym y m)).
+  - left. rewrite hd_app_nonempty by apply dec_nonempty. apply dec_hd_nonzero. exact Hy.
 Qed.
 
-Local Opaque format_version.
-
-Lemma compile_P2 : compile_pattern_re P2 = Some CV.R_calver.
-Proof. vm_compute. reflexivity. Qed.
-Lemma compile_P2' : exists r, compile_pattern_re P2' = Some r.
-Proof. eexists. vm_compute. reflexivity. Qed.
-
-Theorem update_writes_calver : forall v y m t,
-  v_year_y v = Some y -> v_month v = Some m -> state_of v t -> all_digits (v_bid v) = true ->
-  option_map cp_repl (v2_cpat P2 s_version_ph v) = Some (cvt (Z.to_N y) (Z.to_N m) (v_bid v) t)
-  /\ option_map cp_repl (v2_cpat P2 s_pep440_ph v) = Some (cpt (Z.to_N y) (Z.to_N m) (v_bid v) t).
+(* the written text is the normal form exactly when the tag is not post or dev (year not 0) *)
+Theorem cpt_literal_iff : forall y m bid t, y <> 0 -> m <= 12 ->
+  (cpt y m bid t = to_pep440 (cpt y m bid t) <-> dotless t = true).
 Proof.
-  intros v y m t Hy Hm H Hb. unfold v2_cpat. cbv zeta. destruct compile_P2' as [r Hr].
-  rewrite norm2_version, norm2_pep440, compile_P2, Hr, (cvt_format_gen v y m t Hy Hm (proj1 H) Hb),
-    (cpt_format_gen v y m t Hy Hm H).
-  split; reflexivity.
+  intros y m bid t Hy Hm. rewrite (to_pep440_cpt y m bid t Hm). unfold nf2.
+  rewrite dotted_cons2, dotted_single, (dec_ym y m Hy Hm).
+  assert (E : forall sfx, dec y ++ pad 2 m ++ [46] ++ dec (undec bid) ++ sfx
+                          = ((dec y ++ pad 2 m) ++ 46 :: dec (undec bid)) ++ sfx).
+  { intros sfx. rewrite <- !app_assoc. reflexivity. }
+  unfold cpt. rewrite E.
+  destruct t as [[[] n]|]; cbn [dotless nsuffix]; split; intros H; try reflexivity; try discriminate H;
+    apply app_inv_head in H; discriminate H.
 Qed.
+
+(* BLD prints the build number without leading zeros, so a build string made of zeros only is written as 0,
+   which the derived pattern does not accept: its BLD part is [1-9][0-9]*.  (bumpver's own build numbers
+   start at 1000, so this needs a hand-written version.) *)
+Example bld_zero_not_read_back : forall today,
+  format_version (CV.cv_vinfo 2024 1 [48;48;48]) P2' = Some [50;48;50;52;48;49;46;48]
+  /\ parse_version_info today [50;48;50;52;48;49;46;48] P2' = PErr.
+Proof. intros today. split; vm_compute; reflexivity. Qed.
+
+(* ================================================================== the headline statements *)
+(* SemVer with a long tag: whatever the numbers and the tag state of the new version are, the texts written
+   for {version} and for {pep440_version} are PEP 440 versions with the same key and the same normal form,
+   and the second one is read back by the derived pattern *)
+Theorem c15_semver_update : forall today v t, state_of v t ->
+  exists sv sp,
+    option_map cp_repl (v2_cpat PV s_version_ph v) = Some sv
+    /\ option_map cp_repl (v2_cpat PV s_pep440_ph v) = Some sp
+    /\ is_pep440 sv = true /\ is_pep440 sp = true
+    /\ version_key sp = version_key sv
+    /\ to_pep440 sv = to_pep440 sp
+    /\ (dotless t = true -> sp = to_pep440 sv)
+    /\ exists v', parse_version_info today sp (convert_to_pep440 PV) = POk v'
+         /\ v_major v' = Z.of_N (Z.to_N (v_major v)) /\ v_minor v' = Z.of_N (Z.to_N (v_minor v))
+         /\ v_patch v' = Z.of_N (Z.to_N (v_patch v)) /\ v_pytag v' = v_pytag v /\ v_num v' = v_num v.
+Proof.
+  intros today v t H. destruct (update_writes v t H) as [W1 W2].
+  set (a := Z.to_N (v_major v)) in *. set (b := Z.to_N (v_minor v)) in *. set (c := Z.to_N (v_patch v)) in *.
+  exists (vt a b c t), (pt a b c t).
+  destruct (c15_same_version a b c t) as (I1 & I2 & _ & K & T & _).
+  destruct (pt_read_back today a b c t) as (v' & R & _ & Ra & Rb & Rc & Rp & Rn & _).
+  destruct H as (_ & Hp & Hn).
+  split; [exact W1|]. split; [exact W2|]. split; [exact I1|]. split; [exact I2|]. split; [exact K|]. split; [exact T|].
+  split; [intros D; apply pt_literal_iff; exact D|].
+  exists v'. split; [exact R|]. rewrite Hp, Hn. repeat split; assumption.
+Qed.
+
+(* the default CalVer pattern, for a record whose NUM is 0 *)
+Theorem c15_calver_update : forall v y m t,
+  v_year_y v = Some y -> v_month v = Some m -> Z.to_N m <= 12 -> state_of v t -> lnum t = 0 ->
+  all_digits (v_bid v) = true -> v_bid v <> [] ->
+  exists sv sp,
+    option_map cp_repl (v2_cpat P2 s_version_ph v) = Some sv
+    /\ option_map cp_repl (v2_cpat P2 s_pep440_ph v) = Some sp
+    /\ is_pep440 sv = true /\ is_pep440 sp = true
+    /\ version_key sp = version_key sv
+    /\ to_pep440 sv = to_pep440 sp
+    /\ (Z.to_N y <> 0 -> dotless t = true -> sp = to_pep440 sv).
+Proof.
+  intros v y m t Hy Hm Hm12 H Hn Hd Hne. destruct (update_writes_calver v y m t Hy Hm H Hd) as [W1 W2].
+  exists (cvt (Z.to_N y) (Z.to_N m) (v_bid v) t), (cpt (Z.to_N y) (Z.to_N m) (v_bid v) t).
+  destruct (c15_calver (Z.to_N y) (Z.to_N m) (v_bid v) t Hm12 Hd Hne Hn) as (I1 & I2 & _ & K & T & _).
+  split; [exact W1|]. split; [exact W2|]. split; [exact I1|]. split; [exact I2|]. split; [exact K|]. split; [exact T|].
+  intros Hy0 D. rewrite T. apply cpt_literal_iff; assumption.
+Qed.
+
+Print Assumptions convert_PV.
+Print Assumptions norm_version.
+Print Assumptions norm_pep440.
+Print Assumptions vt_format_gen.
+Print Assumptions pt_format_gen.
+Print Assumptions num_zero_is_printed.
+Print Assumptions final_with_num_diverges.
+Print Assumptions update_writes.
+Print Assumptions parse_vt.
+Print Assumptions parse_pt.
+Print Assumptions to_pep440_pt.
+Print Assumptions to_pep440_vt.
+Print Assumptions nf_fixed.
+Print Assumptions pt_literal_iff.
+Print Assumptions pt_post_dev.
+Print Assumptions pt_shape.
+Print Assumptions c15_same_version.
+Print Assumptions pt_read_back.
+Print Assumptions vt_parse_eq.
+Print Assumptions c15_roundtrip.
+Print Assumptions c15_semver_update.
+Print Assumptions convert_P2.
+Print Assumptions norm2_version.
+Print Assumptions norm2_pep440.
+Print Assumptions cvt_format_gen.
+Print Assumptions cpt_format_gen.
+Print Assumptions update_writes_calver.
+Print Assumptions parse_cvt.
+Print Assumptions parse_cpt.
+Print Assumptions c15_calver.
+Print Assumptions calver_hidden_num_diverges.
+Print Assumptions to_pep440_cpt.
+Print Assumptions to_pep440_cvt.
+Print Assumptions cpt_literal_iff.
+Print Assumptions bld_zero_not_read_back.
+Print Assumptions c15_calver_update.
